@@ -159,4 +159,47 @@ theorem cache_precW (dt : Data ℝ) (ω : Draws ℝ) (st : State ℝ) (h : Cache
     iter_induction (CacheOK dt) _ _ _ h (fun d _ t ht => fun n hn => ht n hn)
   exact fun n hn => this n hn
 
+/-- an invariant kept by every stage holds after every stage of `runTrace` -/
+theorem runTrace_invariant {σ : Type} (P : σ → Prop) (fs : List (σ → σ)) (hf : ∀ f ∈ fs, ∀ s, P s → P (f s)) :
+    ∀ (s : σ) (acc : List σ), P s → (∀ t ∈ acc, P t) →
+      P (runTrace fs s acc).1 ∧ ∀ t ∈ (runTrace fs s acc).2, P t := by
+  induction fs with
+  | nil => intro s acc hs hacc; exact ⟨hs, hacc⟩
+  | cons f fs ih =>
+    intro s acc hs hacc
+    have hfs : P (f s) := hf f (List.mem_cons_self) s hs
+    have := ih (fun g hg => hf g (List.mem_cons_of_mem _ hg)) (f s) (acc ++ [f s]) hfs
+      (fun t ht => by
+        rcases List.mem_append.mp ht with h | h
+        · exact hacc t h
+        · rw [List.mem_singleton.mp h]; exact hfs)
+    exact this
+
+theorem cache_stepsTail (dt : Data ℝ) (hw : WellFormed dt) (hp : NoSelfPair dt) (ω : Draws ℝ) :
+    ∀ f ∈ stepsTail dt ω, ∀ s, CacheOK dt s → CacheOK dt (f s) := by
+  intro f hf s hs
+  simp only [stepsTail, List.mem_cons, List.not_mem_nil, or_false] at hf
+  rcases hf with rfl | rfl | rfl | rfl | rfl | rfl | rfl | rfl | rfl | rfl | rfl | rfl
+  · exact cache_alpha dt s hs
+  · exact cache_w0Step dt ω s hs
+  · exact cache_v0Step dt hw hp ω s hs
+  · exact cache_wStep dt ω s hs
+  · exact cache_v2Step dt hw hp ω s hs
+  · exact cache_v1Step dt hw hp ω s hs
+  · exact cache_precW0 dt ω s hs
+  · exact cache_precV0 dt ω s hs
+  · exact cache_precObs dt ω s hs
+  · exact cache_precV2 dt ω s hs
+  · exact cache_precV1 dt ω s hs
+  · exact cache_precW dt ω s hs
+
+theorem cache_sweep (dt : Data ℝ) (hw : WellFormed dt) (hp : NoSelfPair dt) (ω : Draws ℝ) (st : State ℝ) :
+    CacheOK dt (mcmcStep dt ω st) ∧ ∀ s ∈ mcmcTrace dt ω st, CacheOK dt s := by
+  have h0 := cache_reconstruct dt st
+  have := runTrace_invariant (CacheOK dt) (stepsTail dt ω) (cache_stepsTail dt hw hp ω)
+    (reconstructMu dt st) ([] ++ [reconstructMu dt st]) h0
+    (fun t ht => by
+      rw [List.nil_append, List.mem_singleton] at ht; rw [ht]; exact h0)
+  exact this
+
 end Batchie.Gibbs
